@@ -532,7 +532,7 @@ prop(
     setup=custom.c17_setup,
     replay=custom.c17_replay,
     floor=dict(quick=20, thorough=100),
-    counter_floors=dict(quick=dict(miri_runs_completed_clean=16, tsan_runs_clean=3, node_creations=9_000_000, streams_checked=2,
+    counter_floors=dict(quick=dict(miri_runs_completed_clean=16, tsan_runs_clean=3, node_creations=9_000_000,
                                    overlapping_thread_pairs=40)),
     rule="one evaluation = one completed clean execution observed by a race detector (one Miri seed, one TSan run) or one "
          "contention round of the native history checker; distinct_nontrivial = distinct Miri seeds + TSan runs + rounds "
